@@ -213,6 +213,13 @@ def run_job(job):
                 enum("KeyPair::from_private_key_slice + ServerSetup::new_with_key", lambda: s.cmd("setup_new_with_key", rng=rng, sk=sk, ext=True, out="FS_"), n0)
                 b0 = s.de("setupx", bx(base.ser), out="FS2")
                 enum("ServerSetup::deserialize", lambda: s.de("setupx", bx(base.ser), out="FS2_"), failable(b0))
+                # the same two operations with a handle-style key (its deserialize goes through the vault)
+                hb = s.cmd("setup_new_with_key", rng=s.rng("fh", wseed), sk=sk, hnd="long", out="FH")
+                enum("KeyPair::from_private_key_slice + ServerSetup::new_with_key (handle key)",
+                     lambda: s.cmd("setup_new_with_key", rng="fh", sk=sk, hnd="long", out="FH_"), failable(hb))
+                if hb.ok:
+                    hb0 = s.de("setuphl", bx(hb.ser), out="FH2")
+                    enum("ServerSetup::deserialize (handle key)", lambda: s.de("setuphl", bx(hb.ser), out="FH2_"), failable(hb0))
                 s.cmd("creg_start", rng=rng, pw=b"pw", out_state="Fcs", out_msg="Frq")
                 r0 = s.cmd("sreg_start", setup="FS", req="Frq", cred=b"id", out="Frr")
                 enum("ServerRegistration::start", lambda: s.cmd("sreg_start", setup="FS", req="Frq", cred=b"id", out="Frr_"), failable(r0))
